@@ -5,6 +5,8 @@ package rr
 // Contracts for the verifier in /verif (comment-only file; no declarations).
 
 //@ func runoffCoefficient(rainfall, coeff, runoff)
+//@   kernel
+//@   states none
 //@   noalias
 //@   safety C10
 //@   requires rainfall.len == runoff.len
@@ -19,6 +21,8 @@ package rr
 // and per-timestep water balance  rain - runoff - pf*(dS + dGW) = ET >= 0 ----
 
 //@ func simhyd(rainfall, pet, initialStore, initialGW, initialTotalStore, baseflowCoefficient, imperviousThreshold, infiltrationCoefficient, infiltrationShape, interflowCoefficient, perviousFraction, risc, rechargeCoefficient, smsc, runoff, quickflow, baseflow, store) returns (rS, rGW, rTotal)
+//@   kernel
+//@   states initialStore, initialGW, initialTotalStore
 //@   noalias
 //@   safety C10
 //@   requires rainfall.len == pet.len && rainfall.len == runoff.len && rainfall.len == quickflow.len && rainfall.len == baseflow.len && rainfall.len == store.len
@@ -40,6 +44,8 @@ package rr
 // ---- Surm (C10) ----
 
 //@ func surm(rainfall, pet, initialStore, initialGW, initialTotalStore, bfac, coeff, dseep, fcFrac, fimp, rfac, smax, sq, thres, runoffTS, quickflowTS, baseflowTS, storeTS) returns (rS, rGW, rTotal)
+//@   kernel
+//@   states initialStore, initialGW, initialTotalStore
 //@   noalias
 //@   safety C10
 //@   requires rainfall.len == pet.len && rainfall.len == runoffTS.len && rainfall.len == quickflowTS.len && rainfall.len == baseflowTS.len && rainfall.len == storeTS.len
@@ -75,6 +81,8 @@ package rr
 //@ # axiom [A-MATH.pow-monotone] forallr(a, forallr(b, forallr(p, implies(0 <= a && a <= b && p > 0, pow(a,p) <= pow(b,p)))))
 
 //@ func gr4j(rainfall, pet, s0, r0, n1, n2, q1State, q9State, x1, x2, x3, x4, runoff) returns (rS, rR, rN1, rN2, rQ1, rQ9)
+//@   kernel
+//@   states s0, r0, n1, n2, q1State, q9State
 //@   noalias
 //@   safety C15 C10 kinds=bounds,div0,nil,conv
 //@   requires rainfall.len == pet.len && rainfall.len == runoff.len
@@ -119,3 +127,34 @@ package rr
 //@   loop 9 invariant 1 <= i && i <= n2
 //@   loop 9 invariant forall(k, 0, i-1, q1State[k] == pre(q1State[k+1]) + (Pr*0.1*UH2[k+1])) && forall(k, i-1, n2, q1State[k] == pre(q1State[k]) + (Pr*0.1*UH2[k]))
 //@   loop 9 invariant forall(k, 0, n1-1, q9State[k] == pre(q9State[k+1]) + (Pr*0.9*UH1[k+1])) && q9State[n1-1] == 0
+
+// Sacramento: fold structure (C06) and purity (C14). The lower-zone free water
+// contents are carried twice, as states and scaled by (1+side); the scaled
+// copies are tied to the states by a proved invariant.
+//@ func sacramento
+//@   noalias
+//@   panics allowed
+//@   kernel
+//@   states uprTensionWater, uprFreeWater, lwrTensionWater, lwrPrimaryFreeWater, lwrSupplFreeWater, additionalImperviousStore
+//@   derived alzfsc = lwrSupplFreeWater * (1 + side)
+//@   derived alzfpc = lwrPrimaryFreeWater * (1 + side)
+//@   requires rainfall.len == pet.len && rainfall.len == actualET.len && rainfall.len == runoff.len && rainfall.len == imperviousRunoff.len && rainfall.len == surfaceRunoff.len && rainfall.len == baseflow.len
+//@   requires side >= 0 && uh1 + uh2 + uh3 + uh4 + uh5 > 0
+//@   assigns actualET.cells, runoff.cells, imperviousRunoff.cells, surfaceRunoff.cells, baseflow.cells
+//@   loop 0 invariant 0 <= timestep && timestep <= nDays
+
+//@ spec asum(a []real, n int) real = ite(n <= 0, 0.0, asum(a, n-1) + a[n-1])
+
+//@ func sumSlice(s) returns (sum)
+//@   assigns nothing
+//@   ensures [C10.sac-sum] sum == asum(s, len(s))
+//@   loop 0 invariant -1 <= rangeindex && rangeindex < len(s) && sum == asum(s, rangeindex + 1)
+
+//@ func makeUnitHydrograph(uh1, uh2, uh3, uh4, uh5) returns (r)
+//@   requires uh1 + uh2 + uh3 + uh4 + uh5 > 0
+//@   assigns nothing
+//@   ensures [C10.sac-uh-normalised] len(r) == 5 && r[0]*(uh1+uh2+uh3+uh4+uh5) == uh1 && r[1]*(uh1+uh2+uh3+uh4+uh5) == uh2 && r[2]*(uh1+uh2+uh3+uh4+uh5) == uh3 && r[3]*(uh1+uh2+uh3+uh4+uh5) == uh4 && r[4]*(uh1+uh2+uh3+uh4+uh5) == uh5
+//@   ensures [C10.sac-uh-sums-to-one] r[0] + r[1] + r[2] + r[3] + r[4] == 1
+//@   loop 0 invariant 0 <= i && i <= 5 && len(base) == 5 && sum == uh1+uh2+uh3+uh4+uh5
+//@   loop 0 invariant forall(k, 0, i, base[k]*sum == ite(k == 0, uh1, ite(k == 1, uh2, ite(k == 2, uh3, ite(k == 3, uh4, uh5)))))
+//@   loop 0 invariant forall(k, i, 5, base[k] == ite(k == 0, uh1, ite(k == 1, uh2, ite(k == 2, uh3, ite(k == 3, uh4, uh5)))))
